@@ -552,7 +552,7 @@ func c01R5(c *Ctx) {
 		if _, ok := in.(*ssa.Call); !ok {
 			return false
 		}
-		return cancelF != nil && loadedField(cc.Value) == cancelF
+		return cancelF != nil && (loadedField(cc.Value) == cancelF || c.cancelsRun(in))
 	}
 	satisfied := func(in ssa.Instruction) bool {
 		return callsNotifying(in) || isCancel(in) || isPanic(in)
@@ -710,7 +710,7 @@ func c01R6(c *Ctx) {
 	isCancel := func(in ssa.Instruction) bool {
 		cc := callCommon(in)
 		_, isCall := in.(*ssa.Call)
-		return cc != nil && isCall && loadedField(cc.Value) == cancelF
+		return cc != nil && isCall && (loadedField(cc.Value) == cancelF || c.cancelsRun(in))
 	}
 	// from the error creation, every path to loop continuation/return passes cancel()
 	path := c.findPath(notify, mk, isCancel, func(in ssa.Instruction) bool {
@@ -761,9 +761,29 @@ func c01R6(c *Ctx) {
 }
 
 // reportsError: function sends one of its parameters on recentErrors (the error-report helper).
-func (c *Ctx) reportsError(fn *ssa.Function) bool {
+func (c *Ctx) reportsError(fn *ssa.Function) bool { return c.reportsErrorD(fn, 0) }
+
+func (c *Ctx) reportsErrorD(fn *ssa.Function, depth int) bool {
 	errF := c.fLoop("recentErrors")
 	found := false
+	if depth < 2 {
+		// a helper that hands its error parameter to the report helper (e.g. "report and cancel")
+		eachInstr(fn, func(r instrRef) {
+			if call, ok := r.I.(*ssa.Call); ok {
+				for _, callee := range c.CG().Callees(call) {
+					if callee != fn && callee.Pkg == fn.Pkg && c.reportsErrorD(callee, depth+1) {
+						for _, a := range call.Call.Args {
+							for _, p := range fn.Params {
+								if derivesFrom(a, isValue(p)) {
+									found = true
+								}
+							}
+						}
+					}
+				}
+			}
+		})
+	}
 	eachInstr(fn, func(r instrRef) {
 		switch x := r.I.(type) {
 		case *ssa.Send:
@@ -928,4 +948,77 @@ func c01R9(c *Ctx) {
 		}
 		c.minCount(rule, "blocking input waits on explored "+prov+" paths", nBlock, 4)
 	}
+}
+
+// runCancelers: functions of the workflow package on all of whose paths the run's cancel function is called
+// (directly or through another such function): a "report and cancel" helper counts as cancel().
+func (c *Ctx) runCancelers() map[*ssa.Function]bool {
+	if c.cancelers != nil {
+		return c.cancelers
+	}
+	cancelF := c.fLoop("cancel")
+	out := map[*ssa.Function]bool{}
+	c.cancelers = out
+	if cancelF == nil {
+		return out
+	}
+	g := c.CG()
+	direct := func(in ssa.Instruction) bool {
+		cc := callCommon(in)
+		_, isCall := in.(*ssa.Call)
+		if cc == nil || !isCall {
+			return false
+		}
+		if loadedField(cc.Value) == cancelF {
+			return true
+		}
+		cs := g.Callees(in)
+		if len(cs) == 0 {
+			return false
+		}
+		for _, f := range cs {
+			if !out[f] {
+				return false
+			}
+		}
+		return true
+	}
+	fns := c.inPkgs(c.sortedFns(c.Scopes().run), pkgWorkflow)
+	for changed := true; changed; {
+		changed = false
+		for _, fn := range fns {
+			if out[fn] || len(fn.Blocks) == 0 {
+				continue
+			}
+			has := false
+			eachInstr(fn, func(r instrRef) {
+				if direct(r.I) {
+					has = true
+				}
+			})
+			if has && c.findPath(fn, nil, direct, isReturn) == nil {
+				out[fn] = true
+				changed = true
+			}
+		}
+	}
+	return out
+}
+
+// cancelsRun: the instruction calls a function that cancels the run on all of its paths.
+func (c *Ctx) cancelsRun(in ssa.Instruction) bool {
+	if _, ok := in.(*ssa.Call); !ok {
+		return false
+	}
+	cs := c.CG().Callees(in)
+	if len(cs) == 0 {
+		return false
+	}
+	can := c.runCancelers()
+	for _, f := range cs {
+		if !can[f] {
+			return false
+		}
+	}
+	return true
 }
